@@ -449,7 +449,7 @@ fn cases() -> impl Strategy<Value = Case> {
 fn terminal_cases() -> impl Strategy<Value = Case> {
     let key = crate::pick![
         5 => (0x20u32..0x7F).prop_map(|c| char::from_u32(c).unwrap()),
-        3 => prop::sample::select(vec!['é', 'ß', 'λ', '日', '€', '😀', '\u{7FF}', '\u{800}', '\u{FFFD}', '\u{10000}']),
+        3 => prop::sample::select(vec!['é', 'ß', 'λ', '日', '€', '😀', '\u{7FF}', '\u{800}', '\u{FFFD}', '\u{10000}', '\u{FEFF}', '\u{FEFF}', '\u{FFFE}', '\u{85}']),
     ];
     (proggen::prog_spec(8), prop::collection::vec((any::<u16>(), any::<bool>()), 2..6), prop::collection::vec(key, 6..12), crate::gen::layout()).prop_map(|(mut spec, reads, keys, layout)| {
         // no other input traps (their position relative to the shown ones is immaterial here)
@@ -473,7 +473,7 @@ impl Prop for C03 {
     }
     fn rule(&self) -> &'static str {
         "Cases: (a) ProgGen structured programs that terminate by construction (ALU/memory blocks, counted loops nested up to 3, forward skips, JSR/JSRR/RET and CALL/RETS subroutines incl. bounded recursion, self-modifying stores, OUT/PUTS/PUTSP/PUTN/REG/GETC/IN, endings: HALT, run off the end, computed jump to 0xFFFF / below the origin / >= 0xFE00, unknown trap, raw 0xD word, HALT in the middle), \
-         run through lace's assembler or encoded by RefAsm and loaded raw; (b) arbitrary word images (uniform, opcode-weighted, near-PC control flow, traps) at origins 0..=0xFDFF (edges forced); input streams with ASCII, NUL, non-ASCII bytes and too few bytes, a fifth of them beginning with (or containing) a byte order mark, escape introducer, CR LF or end-of-input control; (c) the real binary with a pseudo-terminal as standard input (the interactive path of GETC / IN): programs that read 2-5 keys and print R0 after each, keys typed one at a time while the program waits - printable ASCII and 2-, 3- and 4-byte characters (each byte of a key is one read, a non-ASCII byte reads as U+FFFD): exit status, output and the number of keys consumed against RefVM; in three arrangements of descriptors - terminal in / pipe out, terminal in and out, and pipe in (holding the keys' bytes) / terminal out with decoy keys waiting in the terminal, none of which may be read. \
+         run through lace's assembler or encoded by RefAsm and loaded raw; (b) arbitrary word images (uniform, opcode-weighted, near-PC control flow, traps) at origins 0..=0xFDFF (edges forced); input streams with ASCII, NUL, non-ASCII bytes and too few bytes, a fifth of them beginning with (or containing) a byte order mark, escape introducer, CR LF or end-of-input control; (c) the real binary with a pseudo-terminal as standard input (the interactive path of GETC / IN): programs that read 2-5 keys and print R0 after each, keys typed one at a time while the program waits - printable ASCII and 2-, 3- and 4-byte characters incl. U+FEFF (each byte of a key is one read, a non-ASCII byte reads as U+FFFD): exit status, output and the number of keys consumed against RefVM; in three arrangements of descriptors - terminal in / pipe out, terminal in and out, and pipe in (holding the keys' bytes) / terminal out with decoy keys waiting in the terminal, none of which may be read. \
          Oracle: RefVM — full snapshot right after load; stop reason and exit status; number of executed instructions; output character for character; input bytes consumed; full final snapshot (registers, PC, CC, 65,536 words); under a fuel of N loop iterations (out of fuel after exactly N instructions is a comparable outcome). \
          Non-trivial: >= 20 instructions executed and at least one of: taken backward branch, subroutine return, store into code that is later executed, trap output, input read, abnormal ending. Distinct = hash(origin, words, input, flag)."
     }
